@@ -65,69 +65,9 @@ Definition stp_of (G : list gate_row) (c : cfg) : st -> sym -> st :=
 Definition included (G : list gate_row) (c : cfg) : bool :=
   included_by (stp_of G c) (init c) (grammar c) Sigma.
 
-(* ------------------------------------------------------------------ known deviations *)
-(* Edges of the faithful automaton that leave the grammar (each one reproduced on the live
-   implementation by harness/props/C06.py; see design/C06.md). *)
-Definition is_nst_msg (p : payload) : bool :=
-  match p with PH NST _ | PBufH NST _ => true | _ => false end.
-Definition unaligned_msg (t : hst) (p : payload) : bool :=
-  match p with PH t' false | PBufH t' false => hst_eqb t t' | _ => false end.
-Definition role_is_server (c : cfg) : bool := match c_role c with Server => true | Client => false end.
-
-Inductive devclass := DNstUnannounced | DNstSkipped | DSpanCcs12 | DCcsProtected13
-                    | DCcsInterleaved13 | DUnalignedFirst13.
-
-Definition dev_of (c : cfg) (s : st) (e : sym) : option devclass :=
-  let '(ep, p) := e in
-  match pc s with
-  | F_First =>
-      if (is_nst_msg p && (role_is_server c || negb (c_ticket c)))%bool then Some DNstUnannounced
-      else match p with
-           | PCcs true =>
-               if (negb (role_is_server c) && c_ticket c)%bool then Some DNstSkipped
-               else if pend s then Some DSpanCcs12 else None
-           | _ => None
-           end
-  | F_Ccs => match p with PCcs true => if pend s then Some DSpanCcs12 else None | _ => None end
-  | C13_SH0 => if unaligned_msg SH p then Some DUnalignedFirst13 else None
-  | S_CH => if (c_v13 c && negb (c_hrr c) && unaligned_msg CH p)%bool then Some DUnalignedFirst13 else None
-  | pc0 =>
-      if (v13_at c pc0 && handshaking s)%bool then
-        match p with
-        | PCcs true =>
-            if negb (epoch_eqb ep E0) then Some DCcsProtected13
-            else if pend s then Some DCcsInterleaved13 else None
-        | _ => None
-        end
-      else None
-  end.
-
-Definition known_dev (c : cfg) (s : st) (e : sym) : bool :=
-  match dev_of c s e with Some _ => true | None => false end.
-
-(* the automaton with the known deviating edges cut (they abort instead) *)
-Definition stp_x (G : list gate_row) (c : cfg) : st -> sym -> st :=
-  let t := gate_tab G c in
-  fun s e => if known_dev c s e then mk_st (P_Abort R_any) (buf s) (gotc s) (bep s)
-             else fst (step_t t c s e).
-
-Definition included_x (G : list gate_row) (c : cfg) : bool :=
-  included_by (stp_x G c) (init c) (grammar c) Sigma.
-
-(* does the run of w from s take a known deviating edge? *)
-Fixpoint uses_dev_from (t : gtab) (c : cfg) (s : st) (w : list sym) : bool :=
-  match w with
-  | [] => false
-  | e :: w' => known_dev c s e || uses_dev_from t c (fst (step_t t c s e)) w'
-  end.
-Definition uses_dev (G : list gate_row) (c : cfg) (w : list sym) : bool :=
-  uses_dev_from (gate_tab G c) c (init c) w.
-
-(* the ordering property *)
-(* <=1.2: on the faithful automaton; 1.3: on the automaton with the known deviating edges cut
-   (an unaligned ServerHello lets a whole unprotected flight through, see ord13_witness) *)
+(* ------------------------------------------------------------------ the ordering property *)
 Definition included_order (G : list gate_row) (c : cfg) : bool :=
-  included_by (if c_v13 c then stp_x G c else stp_of G c) (init c) (ccs_fin_order c) Sigma.
+  included_by (stp_of G c) (init c) (ccs_fin_order c) Sigma.
 
 (* ------------------------------------------------------------------ deviation search *)
 Fixpoint reachp (fuel : nat) (stp : st -> sym -> st) (A : list sym)
@@ -185,15 +125,17 @@ Definition bad_edges_by (stp : st -> sym -> st) (q0 : st) (r0 : re) (A : list sy
 
 Definition bad_edges (G : list gate_row) (c : cfg) : list (pos * sym * list sym) :=
   bad_edges_by (stp_of G c) (init c) (grammar c) Sigma.
-Definition bad_edges_x (G : list gate_row) (c : cfg) : list (pos * sym * list sym) :=
-  bad_edges_by (stp_x G c) (init c) (grammar c) Sigma.
 
 (* ------------------------------------------------------------------ witnesses and finite checks *)
 Definition hs (e : epoch) (t : hst) : sym := (e, PH t true).
 Definition ccs0 : sym := (E0, PCcs true).
 
-(* one trace per known deviation class; every one completes the handshake of the faithful
-   automaton and is outside the grammar (all were replayed on the live implementation) *)
+Inductive devclass := DNstUnannounced | DNstSkipped | DSpanCcs12 | DCcsProtected13
+                    | DCcsInterleaved13 | DUnalignedFirst13.
+
+(* one trace per deviation class that tlslite-ng accepted before /repo commit 8fbaa01 (each
+   completed the handshake of the then faithful automaton, was outside the grammar and was
+   replayed live); kept as regression witnesses: all of them must abort now *)
 Definition deviation_witnesses : list (devclass * cfg * list sym) := [
   (* server accepts a NewSessionTicket from the client *)
   (DNstUnannounced, sv12 KRsa false false false false false,
@@ -232,9 +174,10 @@ Definition ord13_witness : list sym :=
   [(E0, PH SH false); (E0, PBufH EE false); (E0, PBufH CertN false); (E0, PBufH CV false);
    (E0, PBufH Fin true)].
 
-Definition witness_ok (G : list gate_row) (x : devclass * cfg * list sym) : bool :=
-  let '(d, c, w) := x in
-  completes G c w && negb (allowed c w) && uses_dev G c w.
+Definition witness_rejected (G : list gate_row) (x : devclass * cfg * list sym) : bool :=
+  let '(d, c, w) := x in negb (completes G c w) && negb (allowed c w).
+Definition ord13_rejected (G : list gate_row) : bool :=
+  negb (completes G ord13_cfg ord13_witness).
 
 (* non-empty or empty application data offered at any handshake position *)
 Definition app_syms : list sym := flat_map (fun e => [(e, PApp true); (e, PApp false)]) all_epoch.
@@ -269,10 +212,10 @@ Definition non_hs_payloads : list payload :=
   [PCcs true; PCcs false; PAlert AWarnNoCert; PAlert AWarn; PAlert AClose; PAlert AFatal;
    PApp true; PApp false; PHb].
 Definition is_ccs_ok (p : payload) : bool := match p with PCcs true => true | _ => false end.
-Definition chk_interleave (G : list gate_row) (c : cfg) (except_ccs : bool) : bool :=
+Definition chk_interleave (G : list gate_row) (c : cfg) : bool :=
   let t := gate_tab G c in
   forallb (fun s =>
     negb (handshaking s && v13_at c (pc s) && bufk_eqb (buf s) BPartial) ||
     forallb (fun e => forallb (fun p =>
-       (except_ccs && is_ccs_ok p) || is_abort (fst (step_t t c s (e, p)))) non_hs_payloads) all_epoch)
+       is_abort (fst (step_t t c s (e, p)))) non_hs_payloads) all_epoch)
   all_st.
